@@ -205,7 +205,18 @@ pub fn c07(tier: &str) -> i32 {
     };
     let mut plans = Vec::new();
     let p = snapshot_profile("snapshot");
-    plans.push(plan("reload (memory / compact file / pretty file) as an operation, LEVELS 3", p.clone(), 3, if t { 5 } else { 4 }));
+    if t {
+        plans.push(plan("reload (memory / compact file / pretty file) as an operation, LEVELS 3", p.clone(), 3, 5));
+    } else {
+        // (quick: the in-memory reload at full depth, the two file formats one operation shallower - file I/O dominates)
+        let mut pm = p.clone();
+        pm.reload_modes = vec![0];
+        plans.push(plan("in-memory reload as an operation, LEVELS 3", pm, 3, 4));
+        let mut pf = p.clone();
+        pf.name = "snapshot-files".into();
+        pf.reload_modes = vec![1, 2];
+        plans.push(plan("reload through a compact / pretty file as an operation, LEVELS 3", pf, 3, 3));
+    }
     {
         // reading (incl. serialising) at any point before or after a reload must not matter
         let mut ob = p.clone();
